@@ -116,7 +116,7 @@ def registry():
             assumptions=['the weight calculus of DESIGN.md sec. 2.3 (an algebraic invariant of truncated power series)',
                          'kernel naming convention _NAME <-> NumPy/SciPy function NAME'])
         reg['C02'] = dict(
-            rules=[G.rule_grade('C02'), S.rule_kinds, S.rule_reflect],
+            rules=[G.rule_grade('C02'), S.rule_kinds, S.rule_kernel_dtype, S.rule_reflect],
             explanation='Static decision of structural conditions of the arithmetic operators: the convolution kernels and all eleven operator '
                         'bodies are homogeneous in the grading (O3: in particular a scalar/array constant meets coefficient 0 only for +,- '
                         'and every coefficient for *,/) with maximal ranges (O4); evidence rules on constants and result dtypes (C02.kinds); '
@@ -124,7 +124,7 @@ def registry():
                         '__array_priority__ > 0. NOT decided: exactness of floating-point results; broadcasting of values.',
             assumptions=['NumPy type-promotion and broadcasting semantics; the weight calculus'])
         reg['C07'] = dict(
-            rules=[G.rule_grade('C07'), S.rule_linalg_kinds, S.rule_compound,
+            rules=[G.rule_grade('C07'), S.rule_linalg_kinds, S.rule_slice_ops, S.rule_compound,
                    lambda ctx: S.rule_base(ctx, ['_inv', '_solve', '_solve_non_UTPM_x'], 'C07.base')],
             explanation='Static decision of structural conditions of the linear-algebra kernels: dot/outer/inv/solve (all operand-kind '
                         'variants) are homogeneous (O3) with maximal ranges (O4); UTPM.dot/outer/solve select the kernel whose suffix names '
@@ -169,7 +169,7 @@ def registry():
             assumptions=['library summary tables of verif/effects.py'])
     if P is not None:
         reg['C11'] = dict(
-            rules=[P.rule_paxis, P.rule_batch, P.rule_p2, P.rule_p3, P.rule_p4],
+            rules=[P.rule_paxis, P.rule_batch, P.rule_p2, P.rule_p3, P.rule_p3b, P.rule_p4],
             explanation='Static information-flow discipline of the direction axis: in every loop over directions the axis-1 subscript of a '
                         '(D,P,...) array is the loop variable and the loop covers range(P); constant direction indices only read shapes (P1); '
                         'element-wise kernels never subscript axis 1 (batch); work arrays allocated outside a p-loop are killed before their '
